@@ -231,6 +231,77 @@ fn deep_inner(e: String, data: Vec<u8>) -> Result<&'static str, Box<dyn std::any
     }))
 }
 
+/// the worker process of the deep-decoder stream: `amharness exec` under an address-space limit; it
+/// answers every `ids.deepchild` line on its (unbuffered) stderr with one `@@…` line
+struct Worker {
+    child: std::process::Child,
+    stdin: std::process::ChildStdin,
+    rx: std::sync::mpsc::Receiver<String>,
+}
+thread_local! { static WORKER: std::cell::RefCell<Option<Worker>> = const { std::cell::RefCell::new(None) }; }
+
+fn spawn_worker() -> Worker {
+    use std::io::BufRead;
+    use std::process::{Command, Stdio};
+    let exe = std::env::current_exe().expect("exe");
+    let mut child = Command::new("sh")
+        .arg("-c")
+        .arg(format!("ulimit -v 2000000; exec '{}' exec", exe.display()))
+        .env("IDS_DEEP_WORKER", "1")
+        .stdin(Stdio::piped()).stdout(Stdio::null()).stderr(Stdio::piped())
+        .spawn().expect("spawn worker");
+    let stdin = child.stdin.take().unwrap();
+    let stderr = child.stderr.take().unwrap();
+    let (tx, rx) = std::sync::mpsc::channel();
+    std::thread::spawn(move || {
+        for l in std::io::BufReader::new(stderr).lines() {
+            match l { Ok(l) => { if tx.send(l).is_err() { break; } } Err(_) => break }
+        }
+    });
+    Worker { child, stdin, rx }
+}
+
+fn deep_in_child(entry: &str, hexdata: &str) -> Vec<String> {
+    use std::io::Write;
+    WORKER.with(|w| {
+        let mut w = w.borrow_mut();
+        if w.is_none() { *w = Some(spawn_worker()); }
+        let wk = w.as_mut().unwrap();
+        let sent = wk.stdin.write_all(format!("> ids.deepchild {} {}\n", entry, hexdata).as_bytes()).and_then(|_| wk.stdin.flush());
+        let mut noise: Vec<String> = vec![];
+        let deadline = std::time::Instant::now() + std::time::Duration::from_secs(10);
+        let verdict = if sent.is_err() { Err("died") } else {
+            loop {
+                let left = deadline.saturating_duration_since(std::time::Instant::now());
+                match wk.rx.recv_timeout(left) {
+                    Ok(l) => { if let Some(r) = l.strip_prefix("@@") { break Ok(r.to_string()); } else { noise.push(l); } }
+                    Err(std::sync::mpsc::RecvTimeoutError::Timeout) => break Err("hung"),
+                    Err(std::sync::mpsc::RecvTimeoutError::Disconnected) => break Err("died"),
+                }
+            }
+        };
+        match verdict {
+            Ok(r) => r.split("@@").filter(|x| !x.is_empty()).map(|x| x.to_string()).collect(),
+            Err(kind) => {
+                let mut wk = w.take().unwrap();
+                let _ = wk.child.kill();
+                let _ = wk.child.wait();
+                let first = noise.first().cloned().unwrap_or_default().chars().take(120).collect::<String>();
+                let frame = noise.iter().filter(|l| l.contains("automerge::") || l.contains("hexane::")).next().map(|l| l.trim().to_string()).unwrap_or_default().chars().take(120).collect::<String>();
+                if kind == "hung" { vec!["hung".into(), format!("! C15 sig=hang-{} no answer within 10 s (CPU or memory blow-up)", entry)] }
+                else { vec!["aborted".into(), format!("! C15 sig=abort-{} worker process died: {} [{}]", entry, first, frame)] }
+            }
+        }
+    })
+}
+
+/// in the worker: run the decoder and answer on stderr (stdout of `exec` is block-buffered)
+fn deep_child(entry: &str, data: Vec<u8>) -> Vec<String> {
+    let res = deep(entry, data);
+    if std::env::var("IDS_DEEP_WORKER").is_ok() { eprintln!("@@{}", res.join("@@")); }
+    res
+}
+
 pub fn exec(toks: &[&str]) -> Vec<String> {
     match toks[0] {
         // ---- ExId
@@ -441,8 +512,11 @@ pub fn exec(toks: &[&str]) -> Vec<String> {
                 }
             }
         }
-        // ---- exploration-only: deep decoders
-        "ids.deep" => deep(toks[1], unhx(toks[2])),
+        // ---- exploration-only: deep decoders.  An allocation failure aborts and an endless loop hangs the
+        // process, neither can be caught in-process: each input runs in a child (`amharness exec` fed with the
+        // `ids.deepchild` form of the line) under an address-space limit and a wall-clock limit.
+        "ids.deep" => deep_in_child(toks[1], toks[2]),
+        "ids.deepchild" => deep_child(toks[1], unhx(toks[2])),
         _ => vec!["unknown-cmd".into()],
     }
 }
@@ -753,6 +827,8 @@ pub fn generate(r: &mut Rng, _opts: &BTreeMap<String, String>, sess: &mut Sessio
             outb
         };
         out.count(&format!("deep_{}", entry));
+        // an allocation failure or a kill cannot be caught: with IDS_TRACE set the input is echoed first
+        if std::env::var("IDS_TRACE").is_ok() { eprintln!("ids.deep {} {}", entry, hx(&data)); }
         let res = exec_line(sess, &format!("ids.deep {} {}", entry, hx(&data)), out);
         out.count(&format!("deep_result_{}", res.get(0).map(|s| s.as_str()).unwrap_or("?")));
     }
